@@ -19,11 +19,12 @@ package cloneset
 //@ ensures {C07} target_suffices: result1 == nil && release.Status.CanaryStatus.NoNeedUpdateReplicas == nil ==> rc.Replicas - kept(result0.DesiredPartition, rc.Replicas) >= result0.DesiredUpdatedReplicas
 
 //@ func (*realController).UpgradeBatch
-//@ props C01 C06
+//@ props C01 C06 C07
 //@ requires rc != nil && ctx != nil && rc.object != nil && rc.client != nil
 //@ requires ctx.DesiredPartition.Type == 0 || ctx.DesiredPartition.Type == 1
 //@ ensures one_write: #Patch <= 1 && #Update == 0 && #Create == 0 && #Delete == 0
 //@ ensures only_forward: #Patch == 1 ==> kept(old(ctx.CurrentPartition), old(ctx.Replicas)) > kept(old(ctx.DesiredPartition), old(ctx.Replicas))
 //@ ensures idempotent: kept(old(ctx.CurrentPartition), old(ctx.Replicas)) <= kept(old(ctx.DesiredPartition), old(ctx.Replicas)) ==> #Patch == 0 && result == nil
+//@ ensures {C07} writes_unless_target_met: #Patch == 0 ==> kept(old(ctx.CurrentPartition), old(ctx.Replicas)) <= kept(old(ctx.DesiredPartition), old(ctx.Replicas))
 //@ ensures body_int: #Patch == 1 && old(ctx.DesiredPartition.Type) == 0 ==> patchBody(#Patch.arg3) == sprintf("{\"spec\":{\"updateStrategy\":{\"partition\": %d }}}", as(old(ctx.DesiredPartition.IntVal), "int"))
 //@ ensures body_pct: #Patch == 1 && old(ctx.DesiredPartition.Type) == 1 ==> patchBody(#Patch.arg3) == sprintf("{\"spec\":{\"updateStrategy\":{\"partition\":\"%s\"}}}", old(ctx.DesiredPartition.StrVal))
